@@ -212,6 +212,12 @@ class Interp(object):
             raise _Continue()
         if self._effect(st, state, trace):
             return
+        if isinstance(st, ast.Expr) and isinstance(st.value, ast.Call):
+            # a call whose result is discarded: evaluate it as an atom for its recorded effect
+            for pattern, fn in self.atoms:
+                env = pm.match(pattern, st.value)
+                if env is not None and fn(env, state, trace) is not None:
+                    return
         if self.skip is not None and self.skip(st):
             return
         if is_logging_stmt(st):
